@@ -74,6 +74,11 @@ def giOf (regs : Reg → Option Int) (i : Instr) : Option GI :=
 global phase) -/
 structure QAction (Q : Type) where
   act : GI → Q → Q
+  /-- `transfer φ src tgt q`: the state transfer of the MOV specification, a PARTIAL operation:
+  defined when `src ≠ tgt` and `tgt` is in |0⟩ in `q` (freshly initialised; it may not be entangled
+  with anything); then `tgt` carries what `src` carried — entanglement with the rest included — and
+  `src` is left in the (normalised) one-qubit state `φ` -/
+  transfer : Cyc × Cyc → Nat → Nat → Q → Option Q
 
 def QAction.run {Q : Type} (A : QAction Q) : List GI → Q → Q
   | [], q => q
@@ -81,6 +86,27 @@ def QAction.run {Q : Type} (A : QAction Q) : List GI → Q → Q
 
 /-- rename the qubits of a gate instruction -/
 def ren (ρ : Nat → Nat) (g : GI) : GI := { g with qs := g.qs.map ρ }
+
+/-- `(φ₀, φ₁)`: what the operator `U` leaves on the source when it moves `ψ` onto a |0⟩ target
+(the `phi0`, `phi1` of C07's `isTransfer`) -/
+def phiOf (src tgt : Nat) (U : Mat) : Cyc × Cyc :=
+  let idx (s t : Nat) : Nat := s * 2 ^ (1 - src) + t * 2 ^ (1 - tgt)
+  let u0 := U.getD (idx 0 0) []
+  (u0.getD (idx 0 0) 0, u0.getD (idx 1 0) 0)
+
+/-- the NV move circuit of Gen/NvDecomp for a direction (`true`: electron → carbon) -/
+def movRep (ec : Bool) : Option (List GI) :=
+  (Gen.nvMov.find? (fun e => if ec then e.1 == 0 else e.2.1 == 0)).map (·.2.2)
+
+/-- roles (source, target) of a direction: role 0 = electron, role 1 = carbon -/
+def movDir (ec : Bool) : Nat × Nat := if ec then (0, 1) else (1, 0)
+
+/-- the state in which the device's move leaves its SOURCE qubit (the MOV specification fixes the
+target only; the source is to be freed) -/
+def movPhi (ec : Bool) : Cyc × Cyc :=
+  match (movRep ec).bind (circuit 2) with
+  | some U => phiOf (movDir ec).1 (movDir ec).2 U
+  | none => (0, 0)
 
 /-- The only facts about the quantum action that are used (standard mathematics, not re-proved):
 * `lift`: two gate lists on `n` roles whose exact operators are both a non-zero scalar multiple of
@@ -94,14 +120,36 @@ structure QLawful {Q : Type} (A : QAction Q) : Prop where
     A.run (a.map (ren ρ)) q = A.run (b.map (ren ρ)) q
   angle : ∀ (g : GName) (x n d n' d' : Nat) (q : Q), GName.isRot g = true → n' * 2 ^ d = n * 2 ^ d' →
     A.act ⟨g, [x], n', d'⟩ q = A.act ⟨g, [x], n, d⟩ q
+  /-- a two-qubit circuit whose exact operator satisfies C07's `isTransfer` (`U(ψ ⊗ |0⟩) = φ ⊗ ψ` on
+  two basis columns, hence for every ψ and — by linearity — for a source entangled with anything)
+  IS the transfer leaving `φ`, wherever the transfer is defined -/
+  transferLaw : ∀ (a : List GI) (U : Mat) (s t : Nat) (ρ : Nat → Nat) (q q' : Q),
+    (∀ i j, i < 2 → j < 2 → ρ i = ρ j → i = j) → circuit 2 a = some U → isTransfer s t U = true →
+    A.transfer (phiOf s t U) (ρ s) (ρ t) q = some q' → A.run (a.map (ren ρ)) q = q'
+
+/-- vanilla `mov src tgt`: the state transfer of the property statement, onto a target that is in
+|0⟩ (undefined otherwise), between the electron (id 0) and a carbon; the source is left in the state
+the device's move leaves it in. Registers are untouched. -/
+def movExec {C Q : Type} (A : QAction Q) (i : Instr) (s : St (C × Q)) : Option (St (C × Q)) :=
+  match i.ops with
+  | [.reg r0, .reg r1] =>
+    match readQ s.regs r0, readQ s.regs r1 with
+    | some a, some b =>
+      if a = b then none
+      else if a = 0 then (A.transfer (movPhi true) a b s.mem.2).map fun q' => ⟨s.regs, (s.mem.1, q')⟩
+      else if b = 0 then (A.transfer (movPhi false) a b s.mem.2).map fun q' => ⟨s.regs, (s.mem.1, q')⟩
+      else none
+    | _, _ => none
+  | _ => none
 
 /-- **The concrete semantics**: classical instructions as `Mc` says; a gate instruction (vanilla
 or NV) applies its operator to the qubits its registers name (fault if a register is undefined,
-negative, or both name the same qubit) and touches nothing else. `mov` is given NO semantics here
-(it faults): the NV circuits implement a transfer onto a |0⟩ target, not the published SWAP. -/
+negative, or both name the same qubit) and touches nothing else; `mov` is the partial state transfer
+`movExec` (NOT the SWAP its `to_matrix()` publishes: the property asks for "the same state transfer
+onto a freshly initialised target"). -/
 def MQ {C Q : Type} (A : QAction Q) (Mc : Sem (C × Q)) : Sem (C × Q) where
   exec i s :=
-    if i.cls == movCls then none
+    if i.cls == movCls then movExec A i s
     else match gnameOf i.cls with
       | some _ => (giOf s.regs i).map fun gi => ⟨s.regs, (s.mem.1, A.act gi s.mem.2)⟩
       | none => Mc.exec i s
@@ -187,6 +235,13 @@ def fixedSingles : List (String × GName) :=
 def rotSingles : List (String × GName) :=
   [("vanilla.RotXInstruction", .rotX), ("vanilla.RotYInstruction", .rotY), ("vanilla.RotZInstruction", .rotZ)]
 
+/-- tie, MOV: the template under `key`, read over roles, is the Gen/NvDecomp move circuit of that
+direction -/
+def movTie (cfg : Cfg) (key : String) (ec : Bool) (rm : TOp → Option Nat) : Bool :=
+  match expOf cfg key with
+  | none => false
+  | some body => (roleSeq rm body).isSome && (roleSeq rm body == movRep ec)
+
 /-- all ties at once, for one configuration -/
 def AllTies (cfg : Cfg) : Bool :=
   fixedSingles.all (fun e => singleTie cfg e.1 e.2 && singleTie cfg (e.1 ++ "@hw") e.2)
@@ -197,6 +252,8 @@ def AllTies (cfg : Cfg) : Bool :=
   && twoTie cfg ("cphase_ec" ++ sfx cfg) .cphase .ec rmEC
   && twoTie cfg ("cphase_ec" ++ sfx cfg) .cphase .ce rmEC
   && twoTie cfg ("cphase_cc" ++ sfx cfg) .cphase .cc rmCC
+  && movTie cfg ("mov_ec" ++ sfx cfg) true rmEC
+  && movTie cfg ("mov_ce" ++ sfx cfg) false rmCE
 
 /-- class facts used to recognise instructions: gate classes of the table are exactly the classes
 `gnameOf`/`movCls` know, with the tags the dispatch uses; `set` is the one `isSet` class -/
